@@ -24,6 +24,8 @@ import (
 	"sort"
 	"strings"
 
+	"github.com/cockroachdb/apd/v3"
+
 	"cuelang.org/go/cue"
 	"cuelang.org/go/internal/core/adt"
 	"cuelang.org/go/internal/core/eval"
@@ -89,9 +91,10 @@ func (k *c7canon) label(f adt.Feature) string {
 }
 
 func c7num(x *adt.Num) string {
-	d := x.X
-	var r = d
-	r.Reduce(&d)
+	// NB: copying an apd.Decimal by value aliases the coefficient's storage; reduce into a
+	// fresh decimal instead (a struct copy corrupted 40-digit coefficients).
+	var r apd.Decimal
+	r.Reduce(&x.X)
 	kind := "f"
 	if x.K&adt.IntKind != 0 {
 		kind = "i"
